@@ -34,6 +34,9 @@ DIRECTED = [
     ('rsa', 'every-degenerate', {'s1': 'prime', 's2': 'even', 's3': 'square', 's4': 'pow2'}, [{'all': True, 'check': 'ALL', 'batch': ['s1', 's2', 's3', 's4']}]),
     ('rsa', 'keypair-table-prefix', {'s1': 'kptab2047', 's2': 'kptab2048', 's3': 'kptab1025', 's4': 'kptab65', 's5': 'kptab64', 's6': 'kptab3071'},
      [{'all': False, 'check': 'CheckKeypairDenylist', 'batch': ['s1', 's2', 's3', 's4', 's5', 's6']}, {'all': True, 'check': 'ALL', 'batch': ['s2', 's1']}]),
+    # every residue of the size modulo 16 (the generator draws whole bytes: most even sizes are unreachable too)
+    ('rsa', 'keypair-table-prefix-mod16', {'s%d' % (i + 1): 'kptab%d' % b for i, b in enumerate([2050, 2052, 2054, 2056, 2058, 2060, 2062, 2064, 70, 72, 1030])},
+     [{'all': False, 'check': 'CheckKeypairDenylist', 'batch': ['s%d' % i for i in range(1, 12)]}, {'all': True, 'check': 'ALL', 'batch': ['s3', 's10']}]),
     ('rsa', 'tiny', {'s1': 'bits64', 's2': 'bits65', 's3': 'oddlen', 's4': 'empty_e'}, [{'all': True, 'check': 'ALL', 'batch': ['s4', 's3', 's2', 's1']}]),
 ]
 
